@@ -118,11 +118,13 @@ var framePools = func() [FrameContinuation + 1]*sync.Pool {
 
 func AcquireFrame(ftype FrameType) Frame {
 	fr := framePools[ftype].Get().(Frame)
+	verifPoolGet(0, fr)
 	fr.Reset()
 
 	return fr
 }
 
 func ReleaseFrame(fr Frame) {
+	verifPoolPut(0, fr)
 	framePools[fr.Type()].Put(fr)
 }
